@@ -6,7 +6,7 @@
    D. get_block's chain walk and evaluate_labels on the re-read store. *)
 From Coq Require Import List Bool ZArith QArith Qcanon Qround Qabs Lia Lqa Permutation.
 From RecordUpdate Require Import RecordSet.
-From PV Require Import Base.AList Base.QUtil Gen.GenFile Model.File Model.EventLib Model.Seq Model.Labels
+From PV Require Import Base.AList Base.QUtil Gen.GenFile Gen.GenLabels Model.File Model.EventLib Model.Seq Model.Labels
                        Model.LabelEval Model.ExtFile Proofs.SeqSpec Proofs.SeqCache Proofs.FileProofs
                        Proofs.LabelProofs Proofs.ExtProofs Proofs.ExtStore.
 Import ListNotations RecordSetNotations.
@@ -451,7 +451,7 @@ Qed.
 Theorem reread_ext_spec : forall c0 c, xt_inv c ->
   exists c', reread_ext c0 c = Some c' /\
     ext_l c' = (if nonempty (ext_l c) then lib_of_rows lib_empty (map (read_row sec_ext) (wrows sec_ext (ext_l c)))
-                else ext_l c0) /\
+                else if read_resets_ext_library then lib_empty else ext_l c0) /\
     trig_l c' = lib_of_rows lib_empty (map (read_row sec_trig) (wrows sec_trig (trig_l c))) /\
     lset_l c' = lib_of_rows lib_empty (map (read_row sec_lset) (wrows sec_lset (lset_l c))) /\
     linc_l c' = lib_of_rows lib_empty (map (read_row sec_linc) (wrows sec_linc (linc_l c))) /\
@@ -462,17 +462,18 @@ Proof.
   fold (wfold (sec_specs c) (c, [])).
   destruct (write_secs_spec (sec_specs c) c [] X) as (Xw & Kw & Pw & news & En & F); [intros s []|].
   cbn [app] in En. set (r := wfold (sec_specs c) (c, [])) in *. rewrite En in *. clear En.
-  unfold read_ext. cbn [x_ext x_secs].
+  unfold read_ext, read_ext_gen. cbn [x_ext x_secs].
   set (c1 := c0 <| trig_l := lib_empty |> <| lset_l := lib_empty |> <| linc_l := lib_empty |>
                 <| ext_num := [] |> <| ext_str := [] |>).
+  set (c1' := if read_resets_ext_library then c1 <| ext_l := lib_empty |> else c1).
   set (c2 := match (if nonempty (ext_l c) then Some (wrows sec_ext (ext_l c)) else None) with
-             | Some rows => c1 <| ext_l := lib_of_rows lib_empty (map (read_row sec_ext) rows) |>
-             | None => c1 end).
+             | Some rows => c1' <| ext_l := lib_of_rows lib_empty (map (read_row sec_ext) rows) |>
+             | None => c1' end).
   assert (C2 : ext_num c2 = [] /\ ext_str c2 = [] /\ trig_l c2 = lib_empty /\ lset_l c2 = lib_empty /\
                linc_l c2 = lib_empty /\
                ext_l c2 = (if nonempty (ext_l c) then lib_of_rows lib_empty (map (read_row sec_ext) (wrows sec_ext (ext_l c)))
-                           else ext_l c0)).
-  { unfold c2. destruct (nonempty (ext_l c)); repeat split. }
+                           else if read_resets_ext_library then lib_empty else ext_l c0)).
+  { unfold c2, c1'. destruct (nonempty (ext_l c)); destruct read_resets_ext_library; repeat split. }
   destruct C2 as (C2a & C2b & C2c & C2d & C2e & C2f).
   pose proof (Forall2_names _ _ F) as Nm.
   assert (NdS : NoDup (map sp_name (sec_specs c))) by (unfold sec_specs, sp_name; cbn; repeat constructor; cbn; intuition discriminate).
@@ -546,7 +547,7 @@ Proof. destruct o; reflexivity. Qed.
 (* file_roundtrip_ext: reading what was written gives back the same extension rows, the same label rows,
    the trigger rows with delay/duration in whole microseconds, and the same number <-> name mapping for every
    extension kind that has events *)
-Theorem file_roundtrip_ext : forall c0 c, file_ready c -> ext_l c0 = lib_empty ->
+Theorem file_roundtrip_ext : forall c0 c, file_ready c -> (read_resets_ext_library = false -> ext_l c0 = lib_empty) ->
   exists c', reread_ext c0 c = Some c' /\
     (forall id, lib_get (ext_l c') id = lib_get (ext_l c) id) /\
     (forall id, lib_get (lset_l c') id = lib_get (lset_l c) id) /\
@@ -562,7 +563,7 @@ Proof.
   - intro id. rewrite Le. destruct (nonempty (ext_l c)) eqn:B.
     + rewrite (reread_unit_lib sec_ext (ext_l c) 3 U1 eq_refl (ext_rows_int _ W Ie)).
       rewrite (rebuild_get _ _ _ Ie). apply option_map_id.
-    + rewrite E0. rewrite (empty_get _ id B). reflexivity.
+    + rewrite (empty_get _ id B). destruct read_resets_ext_library; [reflexivity|rewrite (E0 eq_refl); reflexivity].
   - intro id. rewrite Ls, (reread_unit_lib sec_lset (lset_l c) 2 U2 eq_refl Rs), (rebuild_get _ _ _ Is).
     apply option_map_id.
   - intro id. rewrite Li, (reread_unit_lib sec_linc (linc_l c) 2 U3 eq_refl Ri), (rebuild_get _ _ _ Ii).
@@ -592,7 +593,8 @@ Lemma get_nonempty (l : klib) id k : lib_get l id = Some k -> nonempty l = true.
 Proof. unfold lib_get, nonempty. destruct (ldata l); [discriminate|reflexivity]. Qed.
 
 (* get_block's chain walk on the re-read store returns the same entries, triggers in whole microseconds *)
-Theorem dec_ext_reread : forall c0 c c', file_ready c -> ext_l c0 = lib_empty -> reread_ext c0 c = Some c' ->
+Theorem dec_ext_reread : forall c0 c c', file_ready c -> (read_resets_ext_library = false -> ext_l c0 = lib_empty) ->
+  reread_ext c0 c = Some c' ->
   forall f eid r, dec_ext c f eid = Some r -> dec_ext c' f eid = Some (map file_payload r).
 Proof.
   intros c0 c c' FR E0 R f eid r H.
@@ -683,7 +685,7 @@ Qed.
 (* the same label program after write + read (the [BLOCKS] rows are integers and come back as they are:
    C01): evaluate_labels of the re-read sequence sees exactly the blocks it saw before *)
 Theorem table_lblocks_reread : forall c0 c c' bs,
-  file_ready c -> ext_l c0 = lib_empty -> reread_ext c0 c = Some c' ->
+  file_ready c -> (read_resets_ext_library = false -> ext_l c0 = lib_empty) -> reread_ext c0 c = Some c' ->
   table_lblocks c = Some bs -> blocks c' = blocks c -> table_lblocks c' = Some bs.
 Proof.
   intros c0 c c' bs FR E0 R H Eb. unfold table_lblocks in *. rewrite Eb.
@@ -710,7 +712,8 @@ Proof.
 Qed.
 
 Theorem eval_labels_reread : forall c0 c c' init m x,
-  file_ready c -> ext_l c0 = lib_empty -> reread_ext c0 c = Some c' -> blocks c' = blocks c ->
+  file_ready c -> (read_resets_ext_library = false -> ext_l c0 = lib_empty) -> reread_ext c0 c = Some c' ->
+  blocks c' = blocks c ->
   eval_table c init m = Some x -> eval_table c' init m = Some x.
 Proof.
   intros c0 c c' init m x FR E0 R Eb H. unfold eval_table in *.
